@@ -167,7 +167,7 @@ def gen(tier, rng, shard, nshards):
         else:
             alg = S.pick(rng, ["omitted", "Auto", "Eig", "Eig", "Arnoldi", "Arnoldi"])
         iters = S.pick(rng, ["n", "n+3", "default"])
-        case = {"spec": node, "fn": fn, "alg": alg, "iters": iters, "cols": int(S.pick(rng, [0, 1, 3])), "seed": S.seed(rng),
+        case = {"spec": node, "fn": fn, "alg": alg, "iters": iters, "cols": int(S.pick(rng, [0, 1, 3, -1])), "seed": S.seed(rng),
                 "hermitian": hermitian}
         if scaled:
             case["scaled"] = True
@@ -255,13 +255,13 @@ def evaluate(ctx, node, case):
     out.append(("returns", True, None))
     krylov = case["alg"] in ("Lanczos", "Arnoldi")
     eps = max(ref.eps, 1e-9 if krylov else 0.0)
-    shape = (n, ) if case["cols"] == 0 else (n, case["cols"])
+    shape = (n, ) if case["cols"] == 0 else (n, (n if n <= 6 else 3) if case["cols"] == -1 else case["cols"])  # (-1: a square block of operands)
     vdt = P.code_of(ref.dtype)
     if vdt in ("f4", "f8") and case["seed"] % 5 == 1:
         vdt = {"f4": "c8", "f8": "c16"}[vdt]  # a complex operand for a real operator: f(A) (u + i w) = f(A) u + i f(A) w
     v = P.operand(case["seed"], shape, vdt, "normal")
     if v.ndim == 2 and v.shape[1] > 1:
-        v = v * np.array([1e-6, 1.0, 1e6][:v.shape[1]]).astype(v.dtype)  # very different column norms
+        v = v * np.resize(np.array([1e-6, 1.0, 1e6]), v.shape[1]).astype(v.dtype)  # very different column norms
         if case["seed"] % 4 == 0:
             v[:, 1] = 0  # a zero column: f(A) 0 = 0 (even where f(0) is infinite)
     vw = R._wide(v)
